@@ -9,9 +9,12 @@ RULE = ('field: straight-line programs over the public operators inside the oper
         'canonical decoder on values around L and byte-reversed L; group: fixed-base multiplication for every single-nibble scalar and boundary scalars, double-scalar '
         'multiplication incl. every small odd b and 2^k-j, doubling/addition/conversion chains, decode(encode(P)), every precomputed table entry and every select() argument '
         '(through the read-only hook); distinct = (op family, shape/class)')
-ASSUMPTIONS = ['Python integers modulo p and L; Edwards arithmetic of the C13/C14 oracle']
+ASSUMPTIONS = ['bulk phase: the force-32bits backend serves as a second implementation for locating rare disagreements; a disagreement is reported only when the Python model shows the default build wrong, and sampled outputs are always checked against the Python model', 'Python integers modulo p and L; Edwards arithmetic of the C13/C14 oracle']
 FLOORS = {'evaluations': 5000, 'distinct': 3000, 'coverage': {'table:GE_BASE': 256, 'table:BI': 8, 'select': 32 * 17}}
 THOROUGH_ROUNDS = 40   # thorough tier: generator passes with derived seeds (runner.gen_rounds)
+# bulk phase (cxv/bulk.py): wide reduction, field expressions (mul, square, add, sub, double-square, encoding, sign/zero/==), inversion and the (p-5)/8 power, a*A + b*B
+BULK = {'quick': [('sc_reduce', 1 << 20, 1 << 14), ('fe_mix', 1 << 20, 1 << 14), ('fe_inv', 1 << 15, 1024), ('ge_dsm', 1 << 13, 512)],
+        'thorough': [('sc_reduce', 1 << 27, 1 << 17), ('fe_mix', 1 << 27, 1 << 17), ('fe_inv', 1 << 23, 1 << 13), ('ge_dsm', 1 << 21, 4096)]}
 P, L = o.P, o.L
 M255 = (1 << 255) - 1
 
